@@ -519,6 +519,17 @@ def run(rep, sub=False):
     import engine_skel as K
     from conc import Flags
     tops = [q for q in ogp.summaries if any(c[0] == q and c[1] in drivers for c in ogp.it.inline_calls)]
+    # the function in which the map computed by the walk meets the layout entries: the smallest one whose (helper-inlined) summary holds the
+    # layout entry template and which is not itself handed a stage map (a staged top level - `analysis = ModuleAnalysis::new(&module)?;
+    # module_tokens(&module, &analysis, ..)` - computes the map in one helper and consumes it in another)
+    holders = [q for q, v in ogp.summaries.items() if v is not None and q in crate.fns and not crate.receives(q, 'ShaderStages') and
+               E.find_templates(v, lambda t: 'wgpu :: BindGroupLayoutEntry {' in E.tmpl_text(t))]
+    if holders and not any(q in holders for q in tops):
+        def size_(q):
+            n = [0]
+            E.walk(ogp.summaries[q], lambda x: n.__setitem__(0, n[0] + 1) if x[0] == 'tmpl' else None)
+            return n[0]
+        tops = tops + sorted(holders, key=size_)[:1]
     n_wire = 0
     for tq in tops:
         top = ogp.summaries[tq]
